@@ -17,6 +17,8 @@ const (
 	Microsecond = time.Microsecond
 	Millisecond = time.Millisecond
 	Second      = time.Second
+	Minute      = time.Minute
+	Hour        = time.Hour
 )
 
 var logical int64
